@@ -91,7 +91,67 @@ def run_variant(prog, variant, scratch, optimize):
     return rr
 
 
+def tight_cases(opts=None):
+    from hypothesis import strategies as st
+
+    @st.composite
+    def cases(draw):
+        prog = draw(P.programs("storage-rich", max_ops=3, min_ops=1, opts=dict(opts or {}, allow_zero=False, input_kinds=["asarray", "asarray", "from_array", "from_zarr"])))
+        return {"kind": "tight", "prog": prog, "budget": draw(st.sampled_from([1_500, 4_000, 10_000, 40_000, 200_000])),
+                "reserved": draw(st.lists(st.sampled_from([1_000, 100_000, 1_000_000, 10_000_000]), min_size=1, max_size=2, unique=True)),
+                "optimize": draw(st.booleans())}
+
+    return cases()
+
+
+def check_tight(case) -> Outcome:
+    """Same data budget (allowed_mem - reserved_mem), different reserved_mem: acceptance and values must coincide."""
+    import cubed
+    from zarr.storage import MemoryStore
+
+    from vp import harness as H
+
+    prog = case["prog"]
+    B = case["budget"]
+    labels = {f"tight-budget={B}"}
+    vals = P.eval_numpy(prog)
+    fails = []
+    nin = len(prog["inputs"])
+
+    def run(reserved):
+        spec = cubed.Spec(intermediate_store=MemoryStore(), allowed_mem=B + reserved, reserved_mem=reserved)
+        return H.run_program(prog, spec, executor=H.make_executor("single-threaded"), optimize_graph=case["optimize"])
+
+    base = run(0)
+    bcls = ("accepted", None) if base.phase is None else (base.phase, base.exc_type)
+    labels.add("base:" + bcls[0])
+    for r in case["reserved"]:
+        rr = run(r)
+        c = ("accepted", None) if rr.phase is None else (rr.phase, rr.exc_type)
+        if c != bcls:
+            idx = rr.node_index if rr.phase == "build" else (base.node_index if base.phase == "build" else None)
+            culprit = prog["nodes"][idx - nin]["op"] if idx is not None and idx >= nin else "plan"
+            fails.append(Failure(f"acceptance-depends-on-reserved_mem:{culprit}", f"budget {B}: reserved_mem=0 -> {bcls}; reserved_mem={r} (allowed_mem={B + r}) -> {c}; {(rr.exc_msg or base.exc_msg)[:160]}"))
+            continue
+        if rr.phase is None:
+            for oid, x, y in zip(prog["outputs"], base.results, rr.results):
+                if x.shape != y.shape or not np.array_equal(x, y, equal_nan=True):
+                    fails.append(Failure("values-depend-on-reserved_mem", f"output {oid} differs between reserved_mem=0 and {r}"))
+                    break
+    has_rechunk = any(n["op"] == "rechunk" for n in prog["nodes"])
+    if has_rechunk:
+        labels.add("has-rechunk")
+    seen, uniq = set(), []
+    for f in fails:
+        if f.bucket not in seen:
+            seen.add(f.bucket)
+            uniq.append(f)
+    return Outcome(nontrivial=has_rechunk, labels=tuple(labels), failures=tuple(uniq))
+
+
 def check_case(case) -> Outcome:
+    if case.get("kind") == "tight":
+        return check_tight(case)
     prog = case["prog"]
     labels = {"optimize:" + str(case["optimize"])}
     labels |= {"variant:" + v for v in case["variants"]}
@@ -160,8 +220,10 @@ def check_case(case) -> Outcome:
 
 def shards(tier):
     if tier == "quick":
-        return [{"kind": "program", "name": f"s{i}", "n": 45, "rotate": 31 + i * 61} for i in range(8)]
-    return [{"kind": "program", "name": f"s{i}", "n": 700, "rotate": 31 + i * 61} for i in range(16)]
+        return [{"kind": "program", "name": f"s{i}", "n": 45, "rotate": 31 + i * 61} for i in range(6)] + [
+            {"kind": "tight", "name": f"tight{i}", "n": 90, "rotate": 7 + i * 11} for i in range(2)]
+    return [{"kind": "program", "name": f"s{i}", "n": 700, "rotate": 31 + i * 61} for i in range(13)] + [
+        {"kind": "tight", "name": f"tight{i}", "n": 1500, "rotate": 7 + i * 11} for i in range(3)]
 
 
 def run_shard(spec, seed, tier) -> Acc:
@@ -169,6 +231,10 @@ def run_shard(spec, seed, tier) -> Acc:
     if spec["kind"] == "__corpus__":
         return core.corpus_shard(sys.modules[__name__], acc)
     is_known, _ = core.known_matcher(ID)
+    if spec["kind"] == "tight":
+        core.hyp_run(tight_cases({"rotate": spec.get("rotate", 0)}), check_case, seed=seed, max_examples=spec["n"], acc=acc,
+                     budget_s=420 if tier == "quick" else 3000, shrink=(tier == "thorough"), is_known=is_known)
+        return acc
     core.hyp_run(case_strategy({"rotate": spec.get("rotate", 0), "input_kinds": ["asarray"] * 4 + ["from_array", "from_zarr", "full", "ones", "zeros", "arange", "linspace", "eye"]}), check_case,
                  seed=seed, max_examples=spec["n"], acc=acc, budget_s=420 if tier == "quick" else 3000, shrink=(tier == "thorough"), is_known=is_known)
     return acc
